@@ -37,6 +37,15 @@ def models(tier):
         alpha += [("m", c, n) for n in ("rt:p:0:1", "rt:p:1:1", "rt:a:0:2", "rt:a:1:2")] + [("eof", c)]
     alpha += [("accept",), ("m", 1, "cer_p0"), ("tick", 1)]
     out.append(monitors.ScenarioModel("peer-reconnects", rc_cfg, alpha, MONS, max_socks=2, prelude=PRE))
+    # two relays forward requests of two origin hosts that happen to carry the same identifier pair (hop-by-hop ids are unique per
+    # connection only, end-to-end ids per origin host only) and are pending at the application at the same time
+    two = copy.deepcopy(BASE)
+    two["peers"].append({"name": "peer2.example.org"})
+    two["apps"][0]["peers"] = [0, 1]
+    two["node"]["retransmit_queue_size"] = 3
+    alpha = [("m", 0, "rx:a:0:1"), ("m", 1, "rx:b:0:1"), ("ans", 0), ("ans", 1), ("m", 0, "rx:a:1:1"), ("m", 1, "rx:b:1:1"), ("m", 1, "rx:b:1:2")]
+    out.append(monitors.ScenarioModel("two-connections-same-identifier-pair-held-answers", two, alpha, MONS, max_socks=2,
+                                      prelude=PRE + [("accept",), ("m", 1, "cer_p1")]))
     # a second deterministic scheduling policy (the I/O thread runs only when nothing else can)
     if True:
         out = monitors.with_io_last(out)
